@@ -65,7 +65,8 @@ Fixpoint eoi_tail (r : regex) : bool :=
   | _ => true
   end.
 
-(* no empty class, no empty string, no inverted range, `#` only between classes *)
+(* no empty class, no inverted range, `#` only between classes
+   (the empty string literal "" is fine: it matches the empty word) *)
 Fixpoint leaves_ok (r : regex) : bool :=
   match r with
   | RBuiltin _ | RChar _ | RCharSet _ | RAny | RDiff _ _ =>
@@ -75,7 +76,7 @@ Fixpoint leaves_ok (r : regex) : bool :=
          | _ => true
          end
   | RVar _ => false
-  | RString s => negb (match s with [] => true | _ => false end)
+  | RString _ => true
   | RStar a | RPlus a | ROpt a => leaves_ok a
   | RCat a b | ROr a b => leaves_ok a && leaves_ok b
   | REoi => true
